@@ -25,8 +25,9 @@ const sigAmb = "addr-family-ambiguous"
 // (a)+(b) differential against the reference encoder / decoder
 
 type Case struct {
-	Dict gen.DictChoice `json:"dict"`
-	Msg  gen.Msg        `json:"msg"`
+	Dict    gen.DictChoice `json:"dict"`
+	Msg     gen.Msg        `json:"msg"`
+	TopDown bool           `json:"top_down,omitempty"` // groups created empty, attached, filled afterwards
 }
 
 func hasAmb(avps []*gen.AVP) bool {
@@ -52,6 +53,7 @@ var diff = ev.Register(&ev.Prop[Case]{
 			t.Fatalf("harness: %v", err)
 		}
 		c.Msg = cat.Message(t, gen.TreeOpts{MaxTop: 12, MaxDepth: rapid.IntRange(1, ev.Pick(4, 10)).Draw(t, "max-depth")})
+		c.TopDown = rapid.Bool().Draw(t, "top-down")
 		return c
 	},
 	Run: runDiff,
@@ -69,7 +71,7 @@ func buildMsg(c Case) (*diam.Message, error) {
 	m := diam.NewMessage(c.Msg.Code, c.Msg.Flags, c.Msg.App, c.Msg.HbH, c.Msg.E2E, p)
 	m.Header.HopByHopID, m.Header.EndToEndID = c.Msg.HbH, c.Msg.E2E
 	for _, a := range c.Msg.AVPs {
-		m.AddAVP(a.ToDiamAVP())
+		m.AddAVP(a.Build(gen.BuildOpts{TopDown: c.TopDown}))
 	}
 	return m, nil
 }
@@ -330,10 +332,10 @@ func runHist(c HCase) *ev.Failure {
 			}
 			model = append(model, o.AVP)
 		case "add":
-			m.AddAVP(o.AVP.ToDiamAVP())
+			m.AddAVP(o.AVP.Build(gen.BuildOpts{TopDown: i%2 == 1}))
 			model = append(model, o.AVP)
 		case "insert":
-			m.InsertAVP(o.AVP.ToDiamAVP())
+			m.InsertAVP(o.AVP.Build(gen.BuildOpts{TopDown: i%2 == 0}))
 			model = append([]*gen.AVP{o.AVP}, model...)
 		case "marshal":
 			s := &marshalled{Host: datatype.DiameterIdentity(o.S.Host), State: o.S.State, IDs: o.S.IDs}
